@@ -1,5 +1,6 @@
-(* C15 -- the theorems of RobustSorter / RobustBasics instantiated on the dumped graph of a file, the
-   soundness of the run-time certificate checkers, and the concrete refutations. *)
+(* C15 -- the theorems of RobustSorter / RobustBasics instantiated on the dumped graph of a file, and
+   the two graphs on which the code diverged before the repairs (C15-sortcollision-cycle,
+   C15-node-cycle-global-transform-hang), now inside the totality theorems. *)
 From NiflyVerif Require Import Res GraphModel GraphInv GraphDelete GraphOrder RobustModel RobustBasics RobustSorter.
 From Coq Require Import ZifyBool ZifyNat ZifyN.
 Local Open Scope N_scope.
@@ -7,35 +8,13 @@ Local Open Scope N_scope.
 Lemma vlen_to_nat {A} (l : list A) : N.to_nat (vlen l) = length l.
 Proof. unfold vlen. apply Nat2N.id. Qed.
 
-(* ---------------------------------------------------------------------------------------------- *)
-(* certificate: a rank  =>  PrettySortBlocks terminates within (n+1)^2+1 *)
-Lemma rb_rank_ok_sound n children entities before ranks :
-  rb_rank_ok n children entities before ranks = true ->
-  forall p c, rb_valid n p = true -> In c (rb_pre_targets n children entities before p) ->
-    (N.to_nat (rb_rank_of ranks c) < N.to_nat (rb_rank_of ranks p))%nat.
+(* PrettySortBlocks on a dumped graph: total for EVERY graph, fuel numBlocks + 2 *)
+Theorem rg_pretty_sort_total g ob unk :
+  exists order, rg_pretty_sort (rb_sort_fuel g) g ob unk = Ok order.
 Proof.
-  unfold rb_rank_ok. rewrite forallb_forall. intros H p c V Hin.
-  assert (Hp : In p (rb_all_ids n)) by (apply rb_in_all_ids; eapply valid_lt; eauto).
-  specialize (H p Hp). rewrite forallb_forall in H. specialize (H c Hin).
-  apply N.ltb_lt in H. lia.
-Qed.
-
-Lemma rb_rank_of_bound ranks m i : forallb (fun r => r <=? m) ranks = true -> rb_rank_of ranks i <= m.
-Proof.
-  intros H. unfold rb_rank_of. destruct (vget ranks i) as [r|] eqn:E; [|lia].
-  rewrite forallb_forall in H. apply in_vget in E. specialize (H r E). apply N.leb_le in H. exact H.
-Qed.
-
-Theorem rg_pretty_sort_total g ranks ob unk :
-  rg_rank_ok g ranks = true -> exists order, rg_pretty_sort (rb_sort_fuel g) g ob unk = Ok order.
-Proof.
-  unfold rg_rank_ok, rg_pretty_sort. intros H. apply andb_prop in H. destruct H as [H1 H2].
-  destruct unk; [eauto|].
-  destruct (pretty_sort_total (vlen g) (rg_children g) (rg_entities g) (rg_before g) (rg_is_coll g) (rg_script g ob)
-              (fun i => N.to_nat (rb_rank_of ranks i)) (length g)
-              (rb_rank_ok_sound _ _ _ _ _ H1)
-              (fun p => ltac:(pose proof (rb_rank_of_bound ranks (vlen g) p H2); unfold vlen in *; lia))
-              (rb_root_level g 0 g)) as (st & E & _).
+  unfold rg_pretty_sort. destruct unk; [eauto|].
+  destruct (pretty_sort_total (vlen g) (rg_children g) (rg_entities g) (rg_before g) (rg_is_coll g)
+              (rg_script g ob) (rb_root_level g 0 g)) as (st & E & _).
   unfold rb_sort_fuel. rewrite vlen_to_nat in E. rewrite E. cbn [bind]. eauto.
 Qed.
 
@@ -47,7 +26,7 @@ Proof.
   destruct (rb_pretty_sort _ _ _ _ _ _ _ _); cbn [bind]; congruence.
 Qed.
 
-(* certificate: a closed set  =>  SortCollision never completes on its members while they are unvisited *)
+(* the class of the former defect, as the check recognises it *)
 Lemma rb_closed_ok_sound n children entities before C :
   rb_closed_ok n children entities before C = true ->
   forall p, In p C ->
@@ -56,17 +35,6 @@ Proof.
   unfold rb_closed_ok. rewrite forallb_forall. intros H p Hp. specialize (H p Hp).
   apply andb_prop in H. destruct H as [V H]. split; [exact V|].
   apply existsb_exists in H. destruct H as (c & Hin & Hm). exists c. split; [apply rb_mem_in; exact Hm|exact Hin].
-Qed.
-
-Theorem rg_sort_collision_diverges g C :
-  rg_closed_ok g C = true ->
-  forall fuel p st, In p C -> (forall x, In x C -> rb_is_visited st x = false) -> wf (vlen g) st ->
-    rb_sort_collision (vlen g) (rg_children g) (rg_entities g) (rg_before g) fuel p st = OutOfFuel.
-Proof.
-  intros H fuel p st Hp U W.
-  exact (sort_collision_out_of_fuel (vlen g) (rg_children g) (rg_entities g) (rg_before g)
-           (rg_is_coll g) (rg_script g false) C
-           (rb_closed_ok_sound _ _ _ _ _ H) fuel p st Hp U W).
 Qed.
 
 (* ---------------------------------------------------------------------------------------------- *)
@@ -90,97 +58,30 @@ Proof.
   rewrite vlen_to_nat in E. eauto.
 Qed.
 
+(* the parent walk of GetNodeTransformToGlobal from any block of a dumped graph *)
+Theorem rg_to_global_total g i : i < vlen g -> exists k, rg_to_global (S (length g)) g i = Ok k.
+Proof.
+  intros Hi. unfold rg_to_global.
+  assert (Hv : vlen (rg_node_children g) = vlen g) by (unfold rg_node_children; apply vlen_map).
+  apply to_global_total.
+  - rewrite Hv. split; [constructor; [intros []|constructor]|constructor; [exact Hi|constructor]].
+  - rewrite Hv, vlen_to_nat. cbn [length]. lia.
+Qed.
+
 (* ---------------------------------------------------------------------------------------------- *)
-(* concrete refutations (replayed on the implementation by the check: synth cases of tools/props/c15.py) *)
+(* the two graphs on which the unrepaired code diverged (API-built models of tools/props/c15.py) *)
 Definition rb_blk (fl : N) (ci : list N) (coll : N) (childrefs : list N) : rb_sblock :=
   mkRbSB fl ci ci [] [] NPOS [] coll childrefs (vlen childrefs) 2 NPOS NPOS NPOS NPOS NPOS NPOS NPOS
          [] [] NPOS NPOS [] NPOS NPOS [] [] 0.
 
 (* NiNode (collision object 1) ; bhkCollisionObject (body 2) ; bhkRigidBody whose shape reference is ITSELF
-   = the API-built model "N:1|+C:2+B:2|" *)
+   = "N:1|+C:2+B:2|" *)
 Definition rb_g_self : rb_graph :=
   [ rb_blk 2 [NPOS; 1] 1 [] ; rb_blk 1 [2] NPOS [] ; rb_blk 32 [2] NPOS [] ].
 
-Lemma rb_g_self_sc2 fuel st :
-  wf 3 st -> rb_is_visited st 2 = false ->
-  rb_sort_collision 3 (rg_children rb_g_self) (rg_entities rb_g_self) (rg_before rb_g_self) fuel 2 st = OutOfFuel.
-Proof.
-  intros W U.
-  apply (rg_sort_collision_diverges rb_g_self [2] eq_refl fuel 2 st (or_introl eq_refl)); [|exact W].
-  intros x [<-|[]]. exact U.
-Qed.
-
-Lemma rb_g_self_sc1 f st :
-  wf 3 st -> rb_is_visited st 2 = false ->
-  rb_sort_collision 3 (rg_children rb_g_self) (rg_entities rb_g_self) (rg_before rb_g_self) (S f) 1 st = OutOfFuel.
-Proof.
-  intros W U. cbn [rb_sort_collision].
-  replace (rg_entities rb_g_self 1) with (@nil N) by reflexivity.
-  replace (rg_children rb_g_self 1) with [2] by reflexivity.
-  cbn [rb_iter bind]. unfold rb_call at 1.
-  replace (rb_valid 3 2) with true by reflexivity. rewrite U.
-  replace (rg_before rb_g_self 2) with true by reflexivity. cbn [negb andb].
-  rewrite rb_g_self_sc2 by auto. reflexivity.
-Qed.
-
-Theorem sort_collision_total_refuted :
-  exists g, forall fuel, rg_pretty_sort fuel g false false = OutOfFuel.
-Proof.
-  exists rb_g_self. intros fuel.
-  destruct fuel as [|[|f]]; [reflexivity|reflexivity|].
-  unfold rg_pretty_sort, rb_pretty_sort.
-  replace (rb_root_level rb_g_self 0 rb_g_self) with [0] by reflexivity.
-  replace (vlen rb_g_self) with 3 by reflexivity.
-  remember (S f) as f1 eqn:Hf1.
-  cbn [rb_iter]. cbn [rb_set_sort_indices].
-  replace (rb_valid 3 0) with true by reflexivity.
-  replace (rb_is_visited (rb_st0 3) 0) with false by reflexivity.
-  replace (rg_is_coll rb_g_self 0) with false by reflexivity.
-  replace (rg_script rb_g_self false 0) with [RbVisit NPOS; RbColl 1] by reflexivity.
-  cbn [negb].
-  replace (rb_assign 0 (rb_st0 3)) with (Ok (mkRbSt [true; false; false] [0; 1; 2] 1)) by reflexivity.
-  cbn [bind rb_iter rb_run_action].
-  subst f1. cbn [rb_set_sort_indices].
-  replace (rb_valid 3 NPOS) with false by reflexivity. cbn [negb bind].
-  replace (rb_valid 3 1) with true by reflexivity.
-  replace (rg_is_coll rb_g_self 1) with true by reflexivity. cbn [andb].
-  rewrite rb_g_self_sc1; [reflexivity| |reflexivity].
-  split; reflexivity.
-Qed.
-
-(* a NiNode that lists itself as a child = the API-built model "N:x|0" *)
+(* a NiNode that lists itself as a child = "N:x|0" *)
 Definition rb_g_loop : rb_graph := [ rb_blk 2 [NPOS; NPOS; 0] NPOS [0] ].
 
-Theorem to_global_total_refuted :
-  exists g i, forall fuel, rg_to_global fuel g i = OutOfFuel.
-Proof.
-  exists rb_g_loop, 0. intros fuel. unfold rg_to_global.
-  apply (to_global_diverges (rg_node_children rb_g_loop) [0]); [|left; reflexivity].
-  intros p [<-|[]]. exists 0. split; [reflexivity|left; reflexivity].
-Qed.
-
-Theorem rg_to_global_diverges g C :
-  rb_pclosed_ok (rg_node_children g) C = true ->
-  forall fuel i, In i C -> rg_to_global fuel g i = OutOfFuel.
-Proof.
-  intros H fuel i Hi. unfold rg_to_global. eapply to_global_diverges; eauto.
-  apply rb_pclosed_ok_sound. exact H.
-Qed.
-
-(* graphs without any before-parent call (no bhk blocks, no constraints): linear fuel *)
-Theorem pretty_sort_total_no_bhk n children entities before is_coll script roots :
-  (forall p, entities p = []) -> (forall c, before c = false) ->
-  exists st, rb_pretty_sort n children entities before is_coll script (S (N.to_nat n + 1)) roots = Ok st.
-Proof.
-  intros He Hb.
-  destruct (pretty_sort_total n children entities before is_coll script (fun _ => 0%nat) 0%nat) with (roots := roots)
-    as (st & E & _).
-  - intros p c _ Hin. unfold rb_pre_targets in Hin. rewrite He in Hin. cbn [filter app] in Hin.
-    apply filter_In in Hin. destruct Hin as [_ H]. rewrite Hb, andb_false_r in H. discriminate.
-  - intros _. lia.
-  - replace ((N.to_nat n + 1) * (0 + 1))%nat with (N.to_nat n + 1)%nat in E by lia. eauto.
-Qed.
-
-(* the hypotheses are satisfiable: a well-formed collision tree has a rank, the self-referencing body a closed set *)
+(* a well-formed collision tree: node -> collision object -> body -> shape *)
 Definition rb_g_ok : rb_graph :=
   [ rb_blk 2 [NPOS; 1] 1 [] ; rb_blk 1 [2] NPOS [] ; rb_blk 32 [3] NPOS [] ; rb_blk 32 [] NPOS [] ].
